@@ -103,7 +103,7 @@ Case decode(Tape &t, long sweep)
   if (c.pre == 1 && c.self_exit_after == model::T_INF) c.pre = 2;
   static const int64_t epochs[] = { 1000000, 1, 1700000000000LL, 2147483000LL, 2199023255000LL, 4102444800000LL };
   c.epoch = epochs[t.pick(6)];
-  if (t.chance(1, 8)) {
+  if (t.chance(1, 5)) {
     c.fail_wait = (int) t.pick(3);
     if (t.chance(1, 3)) c.fail_offset = (int64_t) t.range(1, 3000);
   }
